@@ -171,6 +171,10 @@ var Entries = []string{
 // leaves in the base template's own state is visible to the next one.
 var BaseEntries = []string{"Base.RenderFile", "Base.RenderString", "Base.Load.Render"}
 
+// AssignEntries set a request-scoped variable with Template.Assign before rendering (the templates print it):
+// what one request assigns must never show up in another.
+var AssignEntries = []string{"Load.Assign.Render", "Load.FillNil.Assign.Render"}
+
 // Violation is one property violation found by a run.
 type Violation struct {
 	Property  string   `json:"property"`
